@@ -152,6 +152,22 @@ TARGETS = [
                   paths={"self": "p"}, patterns={"ByteSize::U2": "2"},
                   serializes={"store.get_idx().unwrap()": ("store", "ValueStoreIdx"), "store_handle.get_idx().unwrap()": ("store_handle", "ValueStoreIdx")},
                   exprs={"Ok(written)": "out"})),
+    # ---- the layout header of an entry store and the entry-store tail (writer mode, on top of propertyWrites)
+    dict(name="entryLayoutWrites", group="Dir", file="src/creator/directory_pack/layout/entry.rs", fn="serialize",
+         after=r"Serializable for Entry<PN, VN>",
+         cfg=dict(params=[("entrySize", N), ("keyCount", N), ("common", "List SrcProperty"), ("variants", "List (List SrcProperty)")],
+                  ret="List (Nat × Nat)", writes=True, no_loops=True,
+                  prelude="let out : List (Nat × Nat) := []", prelude_scope=["out"],
+                  self_fields={"entry_size": "entrySize"},
+                  exprs={"self.variants.len()": "variants.length", "Ok(written)": "out"},
+                  serializes={"self.key_count()": ("keyCount", "u8"), "self.common": "(common.flatMap propertyWrites)",
+                              "variant": "(variant.flatMap propertyWrites)"},
+                  iters={"&self.variants": "variants"})),
+    dict(name="entryStoreTailWrites", group="Dir", file="src/creator/directory_pack/entry_store.rs", fn="serialize_tail",
+         cfg=dict(params=[("nEntries", N), ("layoutWrites", "List (Nat × Nat)")], ret="List (Nat × Nat)", writes=True, no_loops=True,
+                  prelude="let out : List (Nat × Nat) := []", prelude_scope=["out"],
+                  exprs={"self.entries.len()": "nEntries", "Ok(())": "out"},
+                  serializes={"entry_count": ("entry_count", "EntryCount"), "self.layout": "layoutWrites"})),
 ]
 
 
